@@ -47,10 +47,11 @@ values, stored bytes at boundary values, behaviour exactly at limits; batch 5's 
 misses were analysed and, where the cause was a defect of the machinery rather than of reach -- or a *family* of change that
 several independent authors had produced --, the machinery was extended (see the end of this section) and every batch
 re-run. `seeded/orig_D*` are the reverse patches of the eleven `fix:` commits.
-`seeded/harmless/` holds %d **behaviour-preserving** refactorings written by seven further sub-agents (`E*`/`F*` deliberately
+`seeded/harmless/` holds %d **behaviour-preserving** refactorings written by eight further sub-agents (`E*`/`F*` deliberately
 invasive: extracted helpers, loops turned into iterator chains, `match` turned into `if` chains; `G*` aimed at exactly the
 functions and idioms the later extensions reach: `Display for NodeId` with `{:02x}`, `CombinedKey::enr_to_public` as a
-`match` or with hand-written closures, the socket getters with `?`/`match`/`zip`, `set_socket`, `from_str`; `H*`, eight
+`match` or with hand-written closures, the socket getters with `?`/`match`/`zip`, `set_socket`, `from_str`; `I*` likewise at
+`serde_hex_prfx::deserialize`, `Builder::add_public_key`/`add_value`, `Debug for NodeId`, `Deserialize for Enr`; `H*`, eight
 written by me, cover edit kinds the others did not: reworded error texts, equivalent comparisons and overflow tests, no-op
 statements, attributes) (tests pass,
 rationale in the `.txt` next to each patch). `tools/run_seeded.py <patch>` applies one change (to /repo, or with
@@ -87,8 +88,10 @@ function with the broken one. UNDECIDED entries are exit 2 with the reason in th
   contract (`orig_D5`), `insert_raw_rlp` restructured beyond the hints (`b3_C15_2`).
 * *stand-in coverage*: k256 / ed25519 / zeroize items the stand-ins do not have (`b2_C17_1` `NonZeroScalar`, `b4_C17_2`
   `Zeroizing`, `b3_C17_1` `ed25519::SecretKey`, `b5_C17_1` `SigningKey::from_bytes`): the module's bodies are dropped.
-* *CBMC cost*: the bounded Kani harness on `NodeId`'s deserialiser times out when the changed code searches or formats
-  strings (`b2_C16_2`, `b3_C16_1` `trim_start_matches("0x")`; `b5_C16_2` `format!("{src:0>64}")`).
+* *out of reach for both engines*: `b5_C16_2` left-pads the hex text with `format!("{src:0>64}")` in `NodeId`'s deserialiser
+  -- a `format!` in *value* position with a spec N6 does not model is not replaced by an arbitrary string (that would
+  over-approximate a value, and a proof failing on the over-approximation says nothing): the function is UNDECIDED for
+  Verus, and the Kani harness times out on the formatting code.
 * *error kinds of the decoder*: the contract of `decode` fixes Ok/Err and the value, not *which* `alloy_rlp::Error` is
   returned; `b3_C13_2` changes only the error reported for a malformed item followed by more than 300 bytes. A clause that
   names the cause of each error needs the error values of `K::enr_to_public` and of every alloy-rlp call in the
@@ -135,8 +138,16 @@ miss or alarm, or a recurring family; every batch was re-run afterwards):
   **`entry(key).or_insert*(..)` in `Builder::add_public_key`** (`b3_C08_1`, `b5_C08_2`: an existing entry is kept, so a builder
   used twice, or given a `secp256k1` value by hand, yields a record with the wrong key) -> N17 writes the statement as "insert
   unless present"; the same value stored with a plain `insert` verifies (tried).
-  Two families stay out of reach and are listed above: `compare_content` via `zip(..).all(..)` (five authors) and the
-  `NodeId` deserialiser's prefix handling (three).
+  **prefix handling of `NodeId`'s deserialiser** (`b2_C16_2`, `b3_C16_1`: `trim_start_matches("0x")` strips the prefix any
+  number of times; CBMC times out on the `str` searcher) -> `serde_hex_prfx::deserialize` is verified by Verus (N18, N19,
+  11.3): both reported as `C16.serde.de_helper`; four equivalent rewrites (`match` on `strip_prefix`, a `&str` binding first,
+  an explicit `match` on `from_hex`, `raw.as_ref()`) verify or are UNDECIDED, and `starts_with` + `&raw[2..]` -- correct, but
+  its panic-freedom needs UTF-8 reasoning -- is UNDECIDED by the new rule 11 of 11.4 (it was reported before that rule).
+  One family stays out of reach and is listed above: `compare_content` via `zip(..).all(..)` (five authors).
+* a latent false alarm found on the way: `format!("enr:{}", hex)` (positional instead of inline argument, same text) in
+  `to_base64` was turned into an *arbitrary* string by N6's fall-back for error texts, and the postcondition then failed.
+  N6 now models positional `{}` holes, and applies the arbitrary-string fall-back only in error position (`Err(..)`,
+  `map_err`, `ok_or`, `ok_or_else`, `expect`); elsewhere an unmodelled `format!` makes the function UNDECIDED.
 * the campaign itself runs six checks at a time: pruning of the result cache deleted an entry another run was about to read
   (one run ended with exit 2 "internal error of the checker") -> entries younger than two hours are never pruned.
 
